@@ -292,10 +292,13 @@ class Ring(object):
         parts = fi.qualname.split('.')
         if ci is None:
             return False
-        # the method itself, or the method a nested function lives in
+        # the method itself -- not a function nested in it: a closure the constructor builds (and stores / hands on) runs later,
+        # while requests are served
         cq = ci.qualname.split('.')
-        meth = parts[len(cq)] if len(parts) > len(cq) else None
-        return meth in CTOR_NAMES or (meth is not None and meth in self.ctor_only(ci))
+        if len(parts) != len(cq) + 1:
+            return False
+        meth = parts[len(cq)]
+        return meth in CTOR_NAMES or meth in self.ctor_only(ci)
 
     # -- receivers -----------------------------------------------------------------------------------------------------------
     def self_aliases(self, fi, ci):
@@ -559,6 +562,17 @@ def check_ring(rep, rule, rp):
         locals_ = _local_names(fi)
         sal = ring.self_aliases(fi, ci)
         mal = ring.module_aliases(fi, locals_)
+        # a closure sees the enclosing function's locals: what names a field of the instance / a module-level object there, does here
+        for outer in _enclosing_funcs(fi):
+            if isinstance(outer.node, ast.Lambda):
+                continue
+            o_locals = _local_names(outer)
+            for k, v in ring.self_aliases(outer, ci).items():
+                if k not in locals_ and k not in sal and len(assigned_value(outer.node, k)) == 1:
+                    sal[k] = v
+            for k, v in ring.module_aliases(outer, o_locals).items():
+                if k not in locals_ and k not in mal and len(assigned_value(outer.node, k)) == 1:
+                    mal[k] = v
         for e in effects.effects_in(fi.node, aug_names=True):
             n_effects += 1
             v = ring.judge(fi, ci, e, locals_, sal, mal)
